@@ -15,7 +15,7 @@ Import ListNotations.
 Require Import Celma.Common.Res Celma.ArgH.Key Celma.ArgH.Table Celma.ArgH.Lex.
 
 Inductive vmode := VMNone | VMOptional | VMRequired.
-Inductive dkind := DBool | DInt | DStr | DOptInt | DVecInt | DVecStr.
+Inductive dkind := DBool | DInt | DStr | DOptInt | DVecInt | DVecStr | DLevel.
 
 Inductive check :=
 | CLower (z : Z) | CUpper (z : Z) | CRange (lo hi : Z)
@@ -27,7 +27,8 @@ Record argdef := {
   a_key : key; a_kind : dkind; a_vmode : vmode; a_mand : bool; a_multi : bool;
   a_sep : N; a_clear : bool; a_sort : bool; a_uniq : bool; a_uniq_err : bool;
   a_checks : list check; a_fmts : list fmt; a_card : card;
-  a_excl : list key; a_req : list key; a_depr : bool
+  a_excl : list key; a_req : list key; a_depr : bool;
+  a_mix : bool       (* LevelCounter: setAllowMixIncSet *)
 }.
 
 Inductive gcon :=
@@ -42,7 +43,8 @@ Record cfg := { args : list argdef; gcons : list gcon; abbr : bool; fixed_notify
 
 Inductive value :=
 | VBool (b : bool) | VInt (z : Z) | VStr (s : str) | VOpt (o : option Z)
-| VInts (l : list Z) | VStrs (l : list str).
+| VInts (l : list Z) | VStrs (l : list str)
+| VLevel (z : Z) (set : bool).     (* LevelCounter value and mHasValueSet *)
 
 (** run-time part of one argument *)
 Record art := { hasval : bool; cnt : Z; clearp : bool; val : value; v2set : bool }.
@@ -113,6 +115,20 @@ Definition run_check (c : check) (s : str) : res unit :=
   | CMinLen n => if Nat.ltb (length s) n then Err EUnderflow else Ok tt
   | CMaxLen n => if Nat.ltb n (length s) then Err EOverflow else Ok tt
   end.
+
+(** the checks applied to std::to_string( n) (LevelCounter increment): for the
+    numeric checks this is the comparison itself; text checks on a level
+    counter are outside the model (the driver refuses them) *)
+Definition run_check_num (c : check) (v : Z) : res unit :=
+  match c with
+  | CLower z => if Z.ltb v z then Err EUnderflow else Ok tt
+  | CUpper z => if Z.leb z v then Err EOverflow else Ok tt
+  | CRange lo hi => if Z.ltb v lo then Err EOutOfRange else if Z.leb hi v then Err EOutOfRange else Ok tt
+  | _ => Ok tt
+  end.
+
+Fixpoint run_checks_num (cs : list check) (v : Z) : res unit :=
+  match cs with [] => Ok tt | c :: r => do _ <- run_check_num c v; run_checks_num r v end.
 
 Fixpoint run_checks (cs : list check) (s : str) : res unit :=
   match cs with [] => Ok tt | c :: r => do _ <- run_check c s; run_checks r s end.
@@ -223,6 +239,21 @@ Definition assign (d : argdef) (a : art) (value : str) : res art :=
       let l' := if a_sort d then sort_by Z.ltb l else l in
       Ok {| hasval := negb (match l' with [] => true | _ => false end); cnt := c1; clearp := false;
             val := VInts l'; v2set := v2set a |}
+  | DLevel =>
+      let '(z, set) := match val a with VLevel z b => (z, b) | _ => (0%Z, false) end in
+      match value with
+      | [] =>
+          if set && negb (a_mix d) then Err ERuntime
+          else
+            do _ <- run_checks_num (a_checks d) (z + 1);
+            Ok {| hasval := true; cnt := cnt a; clearp := clearp a; val := VLevel (z + 1) set; v2set := v2set a |}
+      | _ =>
+          if negb (a_mix d) && hasval a then Err ERuntime
+          else
+            do _ <- run_checks (a_checks d) value;
+            do v <- lex_int (apply_fmts (a_fmts d) value);
+            Ok {| hasval := true; cnt := cnt a; clearp := clearp a; val := VLevel v true; v2set := v2set a |}
+      end
   | DVecStr =>
       let cur := match val a with VStrs l => if clearp a then [] else l | _ => [] end in
       do r <- assign_tokens_str d (tokens (a_sep d) value) true (cnt a) cur;
@@ -354,7 +385,7 @@ Definition lookup (c : cfg) (k : key) : res (option nat) := find_arg (abbr c) (i
 Definition dummy_def : argdef :=
   {| a_key := POSKEY; a_kind := DBool; a_vmode := VMNone; a_mand := false; a_multi := false; a_sep := 44%N;
      a_clear := false; a_sort := false; a_uniq := false; a_uniq_err := false; a_checks := []; a_fmts := [];
-     a_card := CardNone; a_excl := []; a_req := []; a_depr := false |}.
+     a_card := CardNone; a_excl := []; a_req := []; a_depr := false; a_mix := false |}.
 Definition dummy_art : art := {| hasval := false; cnt := 0; clearp := false; val := VBool false; v2set := false |}.
 
 (** TypedArgBase::assignValue (without the constraint activation, which needs
